@@ -294,6 +294,16 @@ impl Walrus {
                 if s.ends_with("_index.db") {
                     continue;
                 }
+                // WAL segments are named by their creation time in milliseconds; anything else
+                // (leftover *.tmp files of the index writers, stray files) is not ours to scan
+                let is_segment = path
+                    .file_name()
+                    .and_then(|n| n.to_str())
+                    .map(|n| !n.is_empty() && n.bytes().all(|b| b.is_ascii_digit()))
+                    .unwrap_or(false);
+                if !is_segment {
+                    continue;
+                }
                 files.push(s.to_string());
             }
         }
